@@ -2,7 +2,7 @@
    sylvia-derive/src/parser/attributes/mod.rs translated on every run (GenImpParse.attrparse_fns, Facts/ParseRefine.v). A file
    of its own so that a rewrite of the parser does not take the theorems about fold.rs (Props/C13T.v) with it. Statements only. *)
 From Coq Require Import String List Bool.
-Require Import SV.Model.Imp SV.Model.GenImpParse SV.Facts.ImpFacts SV.Facts.MacroRefine SV.Facts.ParseRefine SV.Facts.ParseFacts.
+Require Import SV.Model.Imp SV.Model.GenImpParse SV.Facts.ImpFacts SV.Facts.MacroRefine SV.Facts.ParseRefine SV.Facts.ParseFacts SV.Facts.TableBridge.
 Import ListNotations.
 Open Scope string_scope.
 Open Scope list_scope.
@@ -19,8 +19,15 @@ Theorem c13_translated_framework_attribute_names : forall path,
   exists n, path = ["sv"; n] /\ In n ["custom"; "error"; "messages"; "msg"; "override_entry_point"; "attr"; "msg_attr"; "payload"; "data"; "features"].
 Proof. exact classify_names. Qed.
 
+(* two translators, one table: the REGENERATED table of attribute names the core theorems of C13 / C17 use (GenTables, rendered
+   from the arms of `match_attribute`) is the function proved of the TRANSLATED `match_attribute` *)
+Theorem c13_regenerated_table_is_the_translated_function : forall s,
+  SV.Model.GenTables.sv_attr_of_string s = option_map svkind_name (name_kind s).
+Proof. exact regenerated_table_is_the_translated_function. Qed.
+
 Example c13_parser_example : classify ["sv"; "msg"] = Some KMsg /\ classify ["sv"; "unknown_thing"] = None /\ classify ["doc"] = None.
 Proof. vm_compute. repeat split; reflexivity. Qed.
 
 Print Assumptions c13_translated_framework_attributes.
 Print Assumptions c13_translated_framework_attribute_names.
+Print Assumptions c13_regenerated_table_is_the_translated_function.
